@@ -5,7 +5,7 @@ import json, subprocess, os
 ENV = "GOFLAGS=-mod=mod GOPROXY=off GOSUMDB=off GOTOOLCHAIN=local"
 TB = ("Trusted base: go/types+go/ssa (x/tools v0.29.0) front end, the govc VC generator in /verif (guarded by the "
       "must-fail selftest corpus), z3 4.8.12 / z3 5.1.0 / cvc5 1.0.3 (an obligation counts only if one says unsat and none says sat). "
-      "Assumed: A2 strings as byte sequences, A3/A4 value semantics of slices/maps (no aliasing between inputs; guarded on every run by the structural obligation slices-received-by-value-are-not-written, which every property carries), A5 globals written only in init (structural obligation), "
+      "Assumed: A2 strings as byte sequences, A3/A4 value semantics of slices/maps (no aliasing between inputs; guarded on every run by the structural obligation slices-and-maps-received-by-value-are-not-written, which every property carries), A5 globals written only in init (structural obligation), "
       "assumed contracts of external libraries listed per run in the evidence file. ")
 
 HALF = 'Build-time half only: what the templates emit from the compiled Output and what the runtime library does with it are outside the technique (no verifier for text/template; the runtime is an external module). '
